@@ -1654,6 +1654,16 @@ static void do_source_file(const char *filename_in,
          exit(EX_IOERR);
       }
 
+      if (need_backup)
+      {
+         /*
+          * Record the md5 of the new content before it is renamed into place:
+          * if we are interrupted in between, the next run sees a file that does
+          * not match the md5 and backs it up instead of trusting it.
+          */
+         backup_create_md5_file(filename_in, filename_tmp.c_str());
+      }
+
       if (filename_tmp != filename_out)
       {
          // We need to compare and then do a rename (but avoid redundant test when if_changed set)
@@ -1682,12 +1692,6 @@ static void do_source_file(const char *filename_in,
                exit(EX_IOERR);
             }
          }
-      }
-
-      if (need_backup)
-      {
-         // the md5 has to describe what is in the file now, i.e. after the rename
-         backup_create_md5_file(filename_in);
       }
 
       if (keep_mtime)
